@@ -1,6 +1,13 @@
 import CV.Drv.Line
 import CV.Drv.Irc
 import CV.Drv.Core
+import CV.Drv.StaticPath
+import CV.Drv.Ranges
+import CV.Drv.Auth
+import CV.Drv.Session
+import CV.Drv.VHost
+import CV.Drv.HttpResp
+import CV.Drv.WebSocket
 /-
 cvdriver <model> : reads op lines on stdin, answers one line per op on stdout.
 Imports only CV.Model.* / CV.Drv.* (no Mathlib) so that it links as an executable.
@@ -8,7 +15,10 @@ Imports only CV.Model.* / CV.Drv.* (no Mathlib) so that it links as an executabl
 open CV.Drv
 
 def machines : List (String × Machine) :=
-  [ ("line", lineMachine), ("irc", ircMachine), ("core", coreMachine) ]
+  [ ("line", lineMachine), ("irc", ircMachine), ("core", coreMachine),
+    ("staticpath", staticPathMachine), ("ranges", rangesMachine),
+    ("auth", C20.authMachine), ("session", C20.sessionMachine), ("vhost", C20.vhostMachine),
+    ("httpresp", httprespMachine), ("ws", wsMachine) ]
 
 def main (args : List String) : IO UInt32 := do
   match args with
